@@ -95,7 +95,11 @@ def arg_matrix(a):
 
 
 def apply_calls0(B, ocp, case, ca):
+    transcribed = False
     for c in case["calls"]:
+        if c.get("after") and not transcribed:
+            ocp.sample(ocp.t, grid="control")      # later guesses are given to the transcribed OCP
+            transcribed = True
         kind, idx = c["obj"]
         sym = B.objs[kind][idx]
         n = c["len"]
@@ -387,8 +391,7 @@ def gen_cases(seed, n, opts):
         c = gen.gen_base(rng, opts)
         gen.touch_objective(c)
         calls = [cc for cc in c10.gen_calls(rng, c) if cc["g"] not in ("GbigT", "Gt0")][:3]
-        for cc in calls:
-            cc["after"] = False
+        calls.sort(key=lambda cc: cc["after"])
         c["calls"] = calls
         c["args"] = gen_args(rng, c)
         c["id"] = "C19-%d-%d" % (seed, i)
@@ -445,7 +448,7 @@ def run(tier="quick", seed=0, jobs=16):
     lqs = [gen_lq(rng) for _ in range(16 if tier == "quick" else 120)]
     dis, nontriv, dist = run_cases(cps, lqs, PID, jobs)
     return {"evaluations": len(cps) + len(lqs), "distinct_nontrivial": len(nontriv),
-            "rule": "random OCPs (MS|SS|DC, DAEs, grids, free/parametric horizon) with 0-3 current set_initial calls x 0-5 to_function arguments "
+            "rule": "random OCPs (MS|SS|DC, DAEs, grids, free/parametric horizon) with 0-3 current set_initial calls (some given after the first transcription) x 0-5 to_function arguments "
                     "(node states, controls, global / per-interval / per-interval+last variables as initial values; global and per-interval "
                     "parameters as values) with random values; results: states and controls on the control grid, variables, parameters, "
                     "collocation helper states and integrator-grid states.  IPOPT max_iter=0 (returns the start point): f(args) against "
